@@ -163,7 +163,7 @@ def real_runs(ctx, nrun, directed=False):
         try:
             clf = Classifier(**kw)
             cfg0 = config_snapshot(clf)
-            with SC.FinderRecorder() as rec:
+            with SC.FinderRecorder() as rec, REGION_REC:
                 c = clf.classify(a)
         except Exception as e:  # noqa
             bad.append({"case": case, "complaints": ["exception %s: %s" % (type(e).__name__, str(e)[:200])]})
@@ -221,10 +221,14 @@ def real_runs(ctx, nrun, directed=False):
     return mism, bad
 
 
+import region_model
+REGION_REC = region_model.RegionRecorder(max_records=40, stride=1)
+
+
 def run(ctx):
     common.install_matid()
     broken = []
-    terr = common.regen(ctx, ("classifier_rule",))
+    terr = common.regen(ctx, ("classifier_rule", "region_rule"))
     if terr:
         for t in THEOREMS:
             ctx.obligations.append((t, False))
@@ -245,6 +249,7 @@ def run(ctx):
         broken.append(("driver", {"error": str(e)[-1000:]}))
     if mism:
         broken.append(("correspondence", {"count": len(mism), "mismatches": mism[:5]}))
+    region_model.check(ctx, broken, REGION_REC.records)
     seen = set()
     for b in bad:
         key = "%s:%s" % (b["case"]["kind"], b["complaints"][0][:40])
